@@ -19,12 +19,13 @@ pub const STATIC: [(&str, &str); 7] = [
 ];
 const PREFIXES: [&str; 7] = ["-", "// ", "/* ", "<!-- ", "\u{a7} ", "#", "-- \t"];
 const WS: [&str; 5] = ["", "  ", "\t", "    ", " \t "];
-const TEXTS: [&str; 24] = [
+const TEXTS: [&str; 27] = [
+    "XYTAG1 end", "a XYTA b", "YTAG2XY",
     "", "plain text", "  indented text", "trailing blanks  ", "TXTPP#nonext", "x TXTPP#inclde y", "-TXTPP#run\tfoo", "TXTPP", "# TXTPP #run", "use TAG1 here", "TAG2TAG1", "XY and TAG1 and XY",
     "\u{e9}t\u{e9} \u{2713}", "-", "//", "   ", "\t", "- dash text", "// comment text", "a TXTPP#foo TXTPP#run echo hidden", "TAG", "end.", "TXTPP#includes x", "  TXTPP#writex",
 ];
 const OUTS: [&str; 10] = ["", "x", "x\\n", "x\\n\\n", "a\\nb\\n", "a\\r\\nb\\r\\n", "  lead\\n", "TAG1", "\\n", "a\\n\\nb"];
-const TAGS: [&str; 4] = ["TAG1", "TAG2", "XY", "TAG"];
+const TAGS: [&str; 5] = ["TAG1", "TAG2", "XY", "TAG", "YTA"];
 
 #[derive(Debug, Clone)]
 pub struct GenOpts {
